@@ -84,6 +84,49 @@ def run(prog, R):
                 R.ob("C12.2-span-provenance", f"{inventory.ishort(k)}->{c.split('::')[-1]}", ok, t["at"],
                      f"range/offset originates from {sorted(set((x[1] or '?').split('::')[-1] if x[0]=='call' else x[0] for x in o))}" + (f"; not boundary-valued: {bad[:3]}" if bad else "") + ("; arithmetic on offsets outside the reviewed site" if arith and not allow_arith else ""))
     R.floor("SyntaxError construction sites", n, 5)
+    # the one reviewed arithmetic site: validate_literal's push_err computes token_start + (off + prefix_len).  The
+    # result is a character boundary of the file only if `off` is a boundary of the unquoted text (the callbacks
+    # must hand on `range.start` of the unescape callback untouched) and prefix_len is the length that the same
+    # arm stripped with unquote(text, prefix_len, ..)
+    vl = prog.body("oq3_syntax::validation::validate_literal")
+    if vl:
+        from sym import SymExec, deep_strip, show
+        dom = vl.dominators()
+        unq = {bi: str(t["args"][1].get("int", t["args"][1].get("bits"))) for bi, t in vl.calls() if (vl.callee_of(t) or "").endswith("validate_literal::unquote") and t["args"][1].get("k") == "const"}
+        made = {}
+        for bi, si, st in vl.stmts_with_pos():
+            if st["k"] == "assign" and st["rv"]["k"] == "agg" and st["rv"].get("closure"):
+                made[norm(st["rv"]["closure"])] = bi
+        ncb = 0
+        for k, b in sorted(prog.bodies.items()):
+            if not (k.startswith("oq3_syntax::validation::validate_literal::{closure#") and not k.endswith("{closure#0}")):
+                continue
+            calls = []
+            for p in SymExec(prog, b).paths():
+                for name, args, bb in p.calls:
+                    if name.endswith("validate_literal::{closure#0}"):
+                        calls.append(args)
+            if not calls:
+                continue
+            ncb += 1
+            okc, det = True, []
+            for args in calls:
+                tup = deep_strip(args[1]) if len(args) > 1 else None
+                if not (isinstance(tup, tuple) and tup[0] == "tuple" and len(tup[1]) == 3):
+                    okc = False
+                    det.append("argument shape")
+                    continue
+                pl, off, _ = tup[1]
+                off = deep_strip(off)
+                start_ok = isinstance(off, tuple) and off[0] == "field" and off[2] == 0 and isinstance(off[1], tuple) and off[1][0] == "arg" and off[1][2] == "range"
+                mk = made.get(k)
+                doms = [u for u in unq if mk is not None and u in dom[mk]]
+                near = max(doms, key=lambda u: len(dom[u])) if doms else None
+                pl_ok = pl[0] == "c" and near is not None and str(pl[2]) == unq[near]
+                okc = okc and start_ok and pl_ok
+                det.append(f"offset {show(off)}; prefix_len {show(pl)} vs unquote(.., {unq.get(near)}, ..)")
+            R.ob("C12.2-escape-offset", inventory.ishort(k), okc, b.at, "; ".join(sorted(set(det))))
+        R.floor("escape-error callbacks of validate_literal", ncb, 2)
     # SyntaxError fields are private: no other producer
     a = prog.adts.get("oq3_syntax::syntax_error::SyntaxError")
     if a:
